@@ -37,6 +37,15 @@ Qed.
 Lemma exhausted_wf : wf_script_entry exhausted = true.
 Proof. reflexivity. Qed.
 
+Lemma classify_cases : forall e,
+  (classify e = KWouldBlock /\ e = EAGAIN) \/ (classify e = KInterrupted /\ e = EINTR)
+  \/ (classify e = KOther /\ e <> EAGAIN /\ e <> EINTR).
+Proof.
+  intros e. unfold classify. destruct (e =? EAGAIN) eqn:A; [left; split; [reflexivity|lia]|].
+  destruct (e =? EINTR) eqn:B; [right; left; split; [reflexivity|lia]|].
+  right; right. repeat split; lia.
+Qed.
+
 Section Inv.
   Variable lens : list nat.
   Variable sh : shape.
@@ -102,11 +111,51 @@ Section Inv.
   Qed.
 
   (** what holds when the call returns [r] in state [s] *)
-  Definition Final (r : Z) (s : st) : Prop :=
-    exists F wb, Good wb s F /\ s_nb s = nb0 /\
+  Definition FinalF (flag : bool) (r : Z) (s : st) : Prop :=
+    exists F wb, Good wb s F /\ s_nb s = flag /\
       (r = Z.of_nat F \/
        (r = -1 /\ F = O /\ (0 < total lens)%nat /\ last_err (s_reqs s) = Some (s_errno s) /\ s_errno s <> 0)) /\
       (wb = true -> F = O -> r = -1 /\ last_err (s_reqs s) = Some (s_errno s)).
+
+  Definition Final := FinalF nb0.
+
+  (** every exit path restores the caller's mode: during the call the flag is set *)
+  Lemma final_restore : forall r s, FinalF true r s -> Final r (restore (negb nb0) s).
+  Proof.
+    intros r s (F & wb & G & NB & R & W). exists F, wb. unfold restore.
+    destruct nb0; cbn [negb]; (split; [exact G|]); (split; [first [exact NB | reflexivity]|]);
+      (split; [exact R | exact W]).
+  Qed.
+
+  (** one kernel call on an array that is the caller's unfilled suffix *)
+  Lemma kcall_good : forall cnt rs x s F,
+    wf_script_entry x = true -> Good false s F -> s_nb s = true ->
+    ranges_ok lens F rs = true -> cnt = List.length rs ->
+    positions lens rs = seq F (total lens - F) ->
+    exists r s', kcall lens cnt rs x s = (r, s') /\ s_nb s' = true /\
+      ((r = -1 /\ s_errno s' <> 0 /\ last_err (s_reqs s') = Some (s_errno s')
+        /\ Good (would_block sh (s_errno s')) s' F)
+       \/ (exists m, r = Z.of_nat m /\ m = Nat.min (avail (snd x)) (total lens - F)
+                     /\ s_errno s' = 0 /\ Good false s' (F + m))).
+  Proof.
+    intros cnt rs x s F W G NB R C P.
+    destruct (fail_errno (snd x)) as [e|] eqn:FE.
+    - rewrite (kcall_fail _ _ _ _ _ _ FE). eexists _, _. split; [reflexivity|]. split; [exact NB|].
+      left. cbn [s_errno s_reqs]. split; [reflexivity|]. split; [exact (wf_entry_fail_nonzero _ _ W FE)|].
+      split; [apply last_err_snoc|]. unfold Good. cbn [s_reqs s_moved s_waits]. now apply goodL_fail.
+    - rewrite (kcall_succ _ _ _ _ _ FE). eexists _, _. split; [reflexivity|]. split; [exact NB|].
+      right. destruct (goodL_succ _ _ _ F cnt (s_nb s) rs (avail (snd x)) G R C P) as [L G'].
+      eexists. split; [reflexivity|]. split; [exact L|]. split; [reflexivity|]. exact G'.
+  Qed.
+
+  Lemma good_wait : forall limit start s F ok left' s', nb0 = false ->
+    Good false s F -> do_wait limit start s = (ok, left', s') ->
+    Good false s' F /\ s_nb s' = s_nb s /\ s_errno s' = s_errno s /\ s_reqs s' = s_reqs s.
+  Proof.
+    intros limit start s F ok left' s' N G E. unfold do_wait in E.
+    destruct (s_wfail s) as [|b t]; inversion E; subst; cbn [s_nb s_errno s_reqs];
+      (split; [|repeat split]); unfold Good; cbn [s_reqs s_moved s_waits]; now apply goodL_wait.
+  Qed.
 
   (** the return value while nothing has been moved: 0, or -1 with the last call's errno *)
   Definition RW (r : Z) (s : st) (F : nat) : Prop :=
